@@ -48,7 +48,7 @@ fn run_with(case: &Case, picks: &[u16], oracle: &str, b: &mut Budget) -> Option<
             r.trace.iter().map(|d| d.pick).collect(),
             m.clone(),
             stale_sites(&r.out),
-            crate::world::w(|w| w.markers.clone()),
+            crate::marks::all(),
         )),
         _ => None,
     }
@@ -62,7 +62,7 @@ fn run_random(case: &Case, seed: u64, oracle: &str, b: &mut Budget) -> Option<Hi
             r.trace.iter().map(|d| d.pick).collect(),
             m.clone(),
             stale_sites(&r.out),
-            crate::world::w(|w| w.markers.clone()),
+            crate::marks::all(),
         )),
         _ => None,
     }
